@@ -20,6 +20,10 @@
 (*        dotpaths[1:] instead of dotpaths[i+1:] to the package walker     *)
 (*   hash-keys-unchecked  (only with KeyRule = "no") a non-capitalised     *)
 (*        key of a visible hash member is readable / assignable            *)
+(*   dot-symbol-data-resolved-inside   a dot path that outside code hands  *)
+(*        to code of the package as DATA (returned by a callback, element  *)
+(*        of an array / list / hash argument) is dereferenced when that    *)
+(*        code binds it, in the scope of the package (Packages!ImplRel)    *)
 (***************************************************************************)
 EXTENDS Packages, Json, IOUtils, TLC, SequencesExt
 
@@ -34,9 +38,11 @@ Enabled(d) == ReplaceFirstSubSeq("", "," \o d \o ",", DevList) # DevList
 IdD1 == "stack-walker-restarts-hash-path"
 IdD2 == "hash-walker-restarts-package-path"
 IdKeys == "hash-keys-unchecked"
+IdRel == "dot-symbol-data-resolved-inside"
 DevD1 == Enabled(IdD1)
 DevD2 == Enabled(IdD2)
 DevKeys == Enabled(IdKeys)
+DevRel == Enabled(IdRel)
 
 VARIABLES ci, pos, tree, dev, verdict
 tvars == <<ci, pos, tree, dev, verdict>>
@@ -61,7 +67,9 @@ Confirms(c, e, nxt) ==
 
 (* the deviations that explain event e in tree t: <<id, tree afterwards>>  *)
 Explained(t, e, nxt) ==
-    IF e.op # "out" THEN <<"none", t>>
+    IF e.op = "rel"
+    THEN (IF DevRel /\ e.rt \in DataRoutes /\ ImplRelOut(t, e).ok THEN <<IdRel, t>> ELSE <<"none", t>>)
+    ELSE IF e.op # "out" THEN <<"none", t>>
     ELSE LET no == [ok |-> FALSE, c |-> t]
              a == IF DevD1 THEN ImplOut(t, e, TRUE, FALSE) ELSE no
              b == IF DevD2 THEN ImplOut(t, e, FALSE, TRUE) ELSE no
@@ -79,11 +87,15 @@ TStep ==
            nxt == IF pos < Len(Evs) THEN Evs[pos + 1] ELSE [op |-> "none"]
            a == Apply(tree, e)
            x == IF a.ok /\ Confirms(a.c, e, nxt) THEN <<"none", tree>> ELSE Explained(tree, e, nxt)
+           (* where the statement is silent ("any") an assignment that reports   *)
+           (* success either took effect or did not: the readback decides         *)
+           keep == /\ a.ok /\ a.vis = "any" /\ e.op = "out" /\ e.rt \in WriteRoutes
+                   /\ ~Confirms(a.c, e, nxt) /\ Confirms(tree, e, nxt)
        IN IF x[1] # "none"
           THEN /\ tree' = x[2] /\ pos' = pos + 1 /\ dev' = (IF dev = "none" THEN x[1] ELSE dev)
                /\ UNCHANGED <<ci, verdict>>
           ELSE IF a.ok
-          THEN /\ tree' = a.c /\ pos' = pos + 1 /\ UNCHANGED <<ci, verdict, dev>>
+          THEN /\ tree' = (IF keep THEN tree ELSE a.c) /\ pos' = pos + 1 /\ UNCHANGED <<ci, verdict, dev>>
           ELSE /\ verdict' = "bad" /\ UNCHANGED <<ci, pos, tree, dev>>
                /\ PrintT(<<"VERDICT", Cases[ci].id, "bad", pos>>)
 
